@@ -217,16 +217,21 @@ fn apply_delta(py: Python, py_src_buf: Py<PyAny>, py_delta: Py<PyAny>) -> PyResu
                 || cp_off > src_size
                 || cp_off > src_size - cp_size
                 || cp_size > dest_size
-                || outindex > dest_size - cp_size
             {
                 break;
+            }
+            // A copy that does not fit in what is left of the declared size
+            // can never produce a valid result (the Python decoder and git
+            // reject it too), even when it is the last opcode.
+            if outindex > dest_size - cp_size {
+                return Err(ApplyDeltaError::new_err("dest size incorrect"));
             }
 
             out.extend_from_slice(&src_buf[cp_off..cp_off + cp_size]);
             outindex += cp_size;
         } else if cmd != 0 {
             if (cmd as usize) > dest_size {
-                break;
+                return Err(ApplyDeltaError::new_err("dest size incorrect"));
             }
 
             // Raise ApplyDeltaError if there are more bytes to copy than space
